@@ -1,6 +1,6 @@
 (** C15 - proxy() forwards every message verbatim in both directions.  Property theorems only.
     The branch taken by select! when both sides are ready is a parameter: all choice sequences. *)
-From ZV Require Import Base.Bytes Base.Res Model.Codec Model.World Model.Proxy Proofs.ProxyProofs.
+From ZV Require Import Base.Bytes Base.Res Model.Codec Model.World Model.Proxy Proofs.ProxyProofs Model.Chain Proofs.ChainProofs.
 
 (** whatever the sequence of branch choices: everything received on one side has been sent on the
     other as the same list of messages (same frames, same order, each once); if a send failed and
@@ -20,3 +20,46 @@ Print Assumptions C15_running_forwards_all.
 Theorem C15_capture_copy : forall f b c cs, cap_inv (proxy_run (pstate0 f b c) cs).
 Proof. exact proxy_capture_copies. Qed.
 Print Assumptions C15_capture_copy.
+
+(** the REQ - ROUTER/DEALER proxy - REP chain (Model/Chain.v: n clients, m workers, FIFO connections;
+    REQ, ROUTER, DEALER, REP and the proxy behave as the World / Proxy models say).  [reply] is what
+    the application behind a REP socket answers; a ZmqMessage is never empty, hence [reply_ok].
+    Whatever the schedule - which client speaks, which connection a fair queue serves next, which worker
+    runs - every reply a client has received is the reply to one of ITS OWN requests, in order, each once *)
+Theorem C15_chain_replies_own : forall reply ids m es,
+  reply_ok reply -> ids_ok ids -> Forall ev_ok es ->
+  Forall (fun cl => cl_got cl = map reply (answered cl)) (ch_clients (crun reply (chain0 ids m) es)).
+Proof. exact chain_replies_own'. Qed.
+Print Assumptions C15_chain_replies_own.
+
+(** with at least one worker nothing is ever undeliverable or malformed on the way *)
+Theorem C15_chain_nothing_lost : forall reply ids m es,
+  reply_ok reply -> ids_ok ids -> Forall ev_ok es -> (0 < m)%nat ->
+  ch_lost (crun reply (chain0 ids m) es) = [].
+Proof. exact chain_nothing_lost'. Qed.
+Print Assumptions C15_chain_nothing_lost.
+
+(** once nothing is in flight every client has the replies to all its requests, none outstanding ... *)
+Theorem C15_chain_quiescent_complete : forall reply ids m es,
+  reply_ok reply -> ids_ok ids -> Forall ev_ok es -> (0 < m)%nat ->
+  quiescent (crun reply (chain0 ids m) es) = true ->
+  Forall (fun cl => cl_out cl = false /\ cl_got cl = map reply (cl_sent cl)) (ch_clients (crun reply (chain0 ids m) es)).
+Proof. exact chain_quiescent_complete'. Qed.
+Print Assumptions C15_chain_quiescent_complete.
+
+(** ... and the workers together were handed each request exactly once *)
+Theorem C15_chain_served_once : forall reply ids m es,
+  ids_ok ids -> Forall ev_ok es -> (0 < m)%nat ->
+  quiescent (crun reply (chain0 ids m) es) = true ->
+  Permutation.Permutation (concat (map wk_served (ch_workers (crun reply (chain0 ids m) es))))
+                          (concat (map cl_sent (ch_clients (crun reply (chain0 ids m) es)))).
+Proof. exact chain_quiescent_served_once. Qed.
+Print Assumptions C15_chain_served_once.
+
+(** the statement needs [reply_ok]: an application answering with an empty message (which the crate's
+    ZmqMessage type cannot express) would have its reply dropped by the client's REQ socket *)
+Theorem C15_chain_needs_nonempty_replies :
+  ~ (forall reply ids m es, ids_ok ids -> Forall ev_ok es ->
+     Forall (fun cl => cl_got cl = map reply (answered cl)) (ch_clients (crun reply (chain0 ids m) es))).
+Proof. exact chain_replies_own_false. Qed.
+Print Assumptions C15_chain_needs_nonempty_replies.
